@@ -97,3 +97,18 @@ Theorem ordinary_histories_unaffected : forall sch fuel txs,
   run_txs (strip sch) fuel st_empty txs = run_txs sch fuel st_empty txs.
 Proof. exact ordinary_histories_unaffected_lemma. Qed.
 Print Assumptions ordinary_histories_unaffected.
+
+(* (3') in ANY state - system entities may exist elsewhere: a create without the flag, and an update (through either
+   store) of an entity whose stored flag is not set, behave exactly as under the schema without the constraint.
+   (wf_strip_b: no field named isSystem, parents are root stores, unique store names.) *)
+Theorem ordinary_create_unaffected_any : forall sch oc st evs x i fv sv,
+  wf_strip_b sch = true ->
+  op_create (strip sch) oc (st, evs) x i false fv sv = op_create sch oc (st, evs) x i false fv sv.
+Proof. exact ordinary_create_unaffected_any_lemma. Qed.
+Print Assumptions ordinary_create_unaffected_any.
+
+Theorem ordinary_update_unaffected_any : forall sch oc st evs x i fv sv ch,
+  wf_strip_b sch = true -> NoFlag st (root_of sch x) i ->
+  op_update (strip sch) oc (st, evs) x i fv sv ch = op_update sch oc (st, evs) x i fv sv ch.
+Proof. exact ordinary_update_unaffected_any_lemma. Qed.
+Print Assumptions ordinary_update_unaffected_any.
